@@ -94,7 +94,7 @@ var sink unsafe.Pointer
 
 // Writes counts instrumented plain writes of the current execution (progress
 // signal for the spin detector).
-func (x *Exec) noteWrite() { x.lastProg = x.steps; x.sigSeen = nil }
+func (x *Exec) noteWrite() { x.lastProg = x.steps; x.sigSeen, x.sigStep = nil, nil }
 
 func callerPC() uintptr {
 	var pcs [1]uintptr
